@@ -15,3 +15,11 @@ package numct
 //@   ensures result == 1 ==> natv(out) == msqrt(old(natv(x)) % mval(m), mval(m)) && (natv(out) * natv(out)) % mval(m) == old(natv(x)) % mval(m)
 //@   ensures result != 1 ==> result == 0 && natv(out) == old(natv(out))
 //@   ensures natv(x) == old(natv(x))
+
+// Variable-time Euclidean division on signed integers: the quotient is given the documented capacity
+//   max(1, min(A, A - B + 2))   with A = numerator.AnnouncedLen(), B = denominator.TrueLen()
+// (trusted arithmetic: |n| < 2^A and 2^(B-1) <= |d| imply |q| <= floor(|n|/|d|) + 1 < 2^(A-B+2) when A-B+1 >= 0, and
+// |q| <= 1 otherwise, so this capacity never truncates the quotient; a smaller one does), never less than one bit.
+//@ func (*Int).EuclideanDivVarTime
+//@   property C17
+//@   ensures ok == 1 ==> alen(i) >= 1 && alen(i) >= min(old(alen(numerator)), old(alen(numerator)) - denominator.TrueLen() + 2) && alen(i) <= max(1, old(alen(numerator)))
